@@ -241,6 +241,43 @@ custom("writer_dry_guards", "src/codemodder/dependency_management/dependency_man
        printer=lambda v: "[" + "; ".join(f"({k}, {'true' if b else 'false'})" for k, b in v) + "]",
        doc="the four *Writer.add_to_file: every file write is inside `if not dry_run:`")
 
+
+def _writer_catches(fn, what):
+    """is every file write of add_to_file inside a `try:` whose handler swallows the exception and returns None?"""
+    if fn is None:
+        raise Unrecognised(f"{what}.add_to_file not found")
+    res = []
+
+    def walk(node, caught):
+        for child in ast.iter_child_nodes(node):
+            c = caught
+            if isinstance(node, ast.Try) and child in node.body:
+                c = any((h.type is None or (isinstance(h.type, ast.Name) and h.type.id in ("Exception", "BaseException", "OSError", "IOError")))
+                        and h.body and _is_return_none(_flatten(h.body)[-1]) for h in node.handlers)
+            if isinstance(child, ast.Call) and _is_write_open(child):
+                res.append(c)
+            walk(child, c)
+
+    walk(fn, False)
+    if not res:
+        raise Unrecognised(f"{what}.add_to_file: no file write found")
+    return all(res)
+
+
+def _writer_catch_table(tree, repo):
+    out = []
+    for ctor, fname, cls in _WRITERS:
+        t = ast.parse((repo / "src/codemodder/dependency_management" / fname).read_text(encoding="utf-8"))
+        out.append([ctor, _writer_catches(find_def(t, f"{cls}.add_to_file"), cls)])
+    return out
+
+
+custom("writer_catch_table", "src/codemodder/dependency_management/dependency_manager.py", ["C04", "C14", "C03"],
+       "writer_catch_table", "list (skind * bool)",
+       [["SReqTxt", True], ["SToml", False], ["SSetupPy", False], ["SSetupCfg", True]], _writer_catch_table,
+       printer=lambda v: "[" + "; ".join(f"({k}, {'true' if b else 'false'})" for k, b in v) + "]",
+       doc="the four *Writer.add_to_file: the file write sits in a try block that swallows the error and returns None")
+
 # ---- whole-function shapes -----------------------------------------------------------------------------------------
 shape("run_apply_codemods", "src/codemodder/codemodder.py", ["C09", "C10", "C04", "C15"],
       "apply_codemods_shape", "apply_codemods_form", "SequentialApplyThenDeps", ["apply_codemods"],
